@@ -35,6 +35,8 @@ func C20(r *core.Run) {
 	r.Rule("R-FLOW/align", "parseBase62: on every path to a nil-error return the parsed magnitude has been copied right-aligned (dst = into[len(into)-len(v):] when shorter, dst = into when equal) and a longer magnitude returns a non-nil error; the slice bound is then in range")
 	r.Rule("R-CONST/pattern-source", "PatternString is never assigned outside its declaration, its users reference the object (no duplicated literal in the module)")
 	r.Rule("R-PURE", "NewHash's call tree reads no package-level variable and calls only hashing primitives")
+	// "parsing never panics on any string": the general panic inventory over everything the package's entry points reach
+	panicScope(r, rules.E(rel, "Parse"), rules.E(rel, "UUID.String"), rules.E(rel, "NewHash"), rules.E(rel, "New"), rules.E(rel, "NewString"), rules.E(rel, "UUID.UUIDString"), rules.E(rel, "UUID.Base64String"))
 
 	// ----- N: array length of UUID
 	uuidT := r.P.LookupType(core.Module+"/"+rel, "UUID")
@@ -625,7 +627,32 @@ func checkAlign(r *core.Run, info *types.Info, fd *ast.FuncDecl) {
 				} else {
 					r.Fatal("parseBase62: this switch (fallthrough, or init statement) is not handled by the alignment walker (unrecognised idiom)")
 				}
-			case *ast.ForStmt, *ast.RangeStmt, *ast.TypeSwitchStmt, *ast.SelectStmt, *ast.GoStmt, *ast.DeferStmt, *ast.LabeledStmt, *ast.BranchStmt:
+			case *ast.ForStmt, *ast.RangeStmt:
+				// a loop that touches neither the parsed value nor the destination (a validation pass over the
+				// text) leaves the relation alone; its returns are judged under the current state
+				var body *ast.BlockStmt
+				if f, ok := x.(*ast.ForStmt); ok {
+					body = f.Body
+				} else {
+					body = x.(*ast.RangeStmt).Body
+				}
+				touches := false
+				ast.Inspect(x, func(n ast.Node) bool {
+					if id, ok := n.(*ast.Ident); ok && (id.Name == v || id.Name == into) {
+						if _, isVar := info.ObjectOf(id).(*types.Var); isVar {
+							touches = true
+						}
+					}
+					return true
+				})
+				if touches {
+					r.Fatal("parseBase62: a loop over the parsed value or the destination is not handled by the alignment walker (unrecognised idiom)")
+				} else {
+					walk(body.List, st)
+				}
+			case *ast.BranchStmt:
+				// break / continue inside such a loop
+			case *ast.TypeSwitchStmt, *ast.SelectStmt, *ast.GoStmt, *ast.DeferStmt, *ast.LabeledStmt:
 				r.Fatal("parseBase62: statement form %T is not handled by the alignment walker (unrecognised idiom)", x)
 			}
 		}
